@@ -51,6 +51,12 @@ def small_scenarios(pid):
                         "R tm 1 0 1 submit 2 1", "R tm 2 0 1 set_flag 1", "R wi 2 2 1 pool_put 1"]
     S["put-early"] = ["O pool 1", "O wi 1", "O wi 2", "S pool_create 1 2", "S submit 1 1", "S submit 2 1", "S pool_put 1"]
     S["put-empty"] = ["O pool 1", "S pool_create 1 2", "S pool_put 1"]
+    # two workers end together; the stop hook of the first one to go takes its time (another thread lets it
+    # continue): the pool must not be torn down under it
+    S["stop-hook-slow"] = ["O pool 1", "O wi 1", "O wi 2", "S pool_create 1 2", "S submit 1 1", "S submit 2 1",
+                           "R wi 1 1 1 set_flag 2", "R wi 1 1 1 wait_flag 3", "R wi 2 1 1 set_flag 3", "R wi 2 1 1 wait_flag 2",
+                           "R wi 1 2 1 pool_put 1", "R wi 2 2 1 pool_put 1", "R pool 1 2 1 wait_flag 5",
+                           "S spawn 1"] + ["T 1 yield"] * 6 + ["T 1 set_flag 5"]
     S["null-chain"] = ["O wi 1", "O wi 2", "O wi 3", "O wi 4", "S submit 1 0", "R wi 1 2 1 submit 2 0", "R wi 2 2 1 submit 3 0",
                        "R wi 3 2 1 submit 4 0", "R wi 3 2 1 submit 1 0"]
     S["null-pool"] = ["O wi 1", "O wi 2", "S submit 1 0", "S submit 2 0", "R wi 1 2 1 submit 1 0"]
